@@ -50,6 +50,7 @@ EXHAUSTIVE = {'quick': False, 'thorough': False}
 ASSUMPTIONS = [
     'kinds and attribute NAMES are spelled with one letter case throughout (case folding of names is property C10); '
     'type names are spelled in any letter case',
+    'no attribute is named __x__ (define_class / define_association reject names that python reserves, property C12)',
     'corresponding referential / identifying attributes have the same declared type (Python compares 1 == 1.0 == True)',
     'positional INSERTs carry a value for every declared attribute (missing ones would take generator-drawn defaults, C19)',
     'REAL values are dyadic rationals with at most six fraction digits (float() and %f are exact on them)',
